@@ -264,6 +264,16 @@ package db
 //@ func (*mergeProcessor).processBlock -> (err)
 //@   assert before call#1 ProcessBlock: res(initCRDTForType, 1, 0) != nil && res(initCRDTForType, 1, 1) == nil && arg1 == res(initCRDTForType, 1, 0)
 //@   tags C19 C05
+//@ // ===== C16: merges of one document are serialised by the merge queue ================================
+//@ // add returns only after it found the key absent and inserted it in the same critical section: a waiter
+//@ // that is woken up starts over (sequential part of the argument; the mutex itself is assumed, A8)
+//@ func (*mergeQueue).add
+//@   ensures ok ==> called(add, 1)
+//@   assert before call#1 add: arg0 == m && arg1 == key && ok
+//@   assert before call#1 Unlock: called(Lock, 1) && (!ok ==> maphas(m.keys, key))
+//@   ensures !called(Lock, 2)
+//@   tags C16
+//@
 //@ // ===== C01/C02/C04: the walk from an incoming commit back to the already merged frontier ============
 //@ // The merge target is a frontier of already merged commits with the greatest of their heights.
 //@ // nothing but add (and the constructor) writes the frontier or its height
